@@ -432,7 +432,7 @@ class Sim:
         self.workers[ev['w']] = w
         rev = self.world.ctx.git_rev if ev['rev'] == 'good' else 'stale-' + str(ev['w'])
         w.sent_rev = rev
-        w.send(self.msg.make(typ=self.msg.Type.register, inc=ev['w'], rev=rev))
+        w.send(self.msg.make(typ=self.msg.Type.register, inc=ev.get('inc', ev['w']), rev=rev))
         w.registered = True
         for m in self.monitors:
             m.on_register(self, w)
@@ -682,6 +682,7 @@ class Driver:
                 'w': self.next_wid,
                 'host': rng.choice(p.get('hosts', ['10.0.0.1', '10.0.0.2'])),
                 'rev': 'stale' if rng.random() < p.get('p_stale', 0.0) else 'good',
+                'inc': rng.choice([0, 0, 1, 2, 7]),  # a worker's first start is incarnation 0
             }
         if op == 'run':
             names = rng.sample(tags, rng.randint(1, min(3, len(tags))))
